@@ -36,6 +36,8 @@ type c18Handler struct {
 	// racing: the handler was added in the very kernel step in which a watch frame
 	// was handed to the informer, and its callbacks yield the processor while the
 	// initial replay runs, so the informer processes that frame during addHandler
+	slow    bool // a handler that takes 300 ms (simulated) per object of its own periodic resync
+	adding  bool // inside the AddEventHandler call (the initial replay runs under the shared handler's lock)
 	racing  bool
 	raceKey string
 	raceIdx int // index in the cache log of the frame handed over together with the add
@@ -53,8 +55,12 @@ func (h *c18Handler) rec(typ string, obj interface{}, same bool) {
 	}
 	h.world.mu.Lock()
 	h.events = append(h.events, c18Event{step: h.world.step, typ: typ, key: u.GetNamespace() + "/" + u.GetName(), rv: u.GetResourceVersion(), sameObjs: same})
+	slow, racing := h.slow && !h.adding, h.racing
 	h.world.mu.Unlock()
-	if h.racing && same {
+	if slow && same {
+		time.Sleep(300 * time.Millisecond)
+	}
+	if racing && same {
 		// a handler that takes its time: every other runnable goroutine gets the
 		// processor (no lock of the harness is held here)
 		for i := 0; i < 64; i++ {
@@ -195,10 +201,21 @@ func C18Scenario() *Scenario {
 						}
 					}
 				}
+				w.mu.Lock()
+				h.adding = true
+				w.mu.Unlock()
+				defer func() { w.mu.Lock(); h.adding = false; w.mu.Unlock() }()
 				if op != "add-handler-resync" {
 					s.ri.Informer().AddEventHandler(h)
 				} else {
+					slow := t.Pick(2, "slow") == 1
+					w.mu.Lock()
+					h.slow = slow
+					w.mu.Unlock()
 					s.ri.Informer().AddEventHandlerWithResyncPeriod(h, time.Duration(2+t.Pick(20, "resync"))*time.Second)
+					if h.slow {
+						w.Probe("c18:slow-handler-with-own-resync")
+					}
 				}
 				opLog = append(opLog, fmt.Sprintf("%d %s#%d on sub#%d", w.step, op, h.id, s.id))
 			case "remove-handlers":
